@@ -4,7 +4,8 @@
 # 2) applies it to /repo, runs the named checks (quick), reverts /repo
 export GOFLAGS=-mod=mod GOPROXY=off GOSUMDB=off GOTOOLCHAIN=local
 NAME=$1; CHECKS=${2:-$1}; TIER=${3:-quick}
-D=/tmp/seed/$NAME
+SEEDROOT=${SEEDROOT:-/tmp/seed}
+D=$SEEDROOT/$NAME
 [ -f $D/patch.diff ] || { echo "no patch.diff in $D"; exit 2; }
 cd $D
 DEMO=$(git status --porcelain | grep zz_seed_demo_test.go | awk '{print $2}' | head -1)
@@ -15,12 +16,12 @@ echo "== $NAME demo=$DEMO pkg=$PKG"
 git checkout -q -- . 2>/dev/null
 git apply patch.diff || { echo "PATCH DOES NOT APPLY"; exit 2; }
 go build ./... || { echo "BUILD FAILS"; exit 2; }
-mv $DEMO /tmp/seed/$NAME.demo.aside
-if go test -vet=off -count=1 ./... > /tmp/seed/$NAME.suite.log 2>&1; then echo "suite-with-change: PASS"; else echo "suite-with-change: FAIL"; grep -E "^(FAIL|---)" /tmp/seed/$NAME.suite.log | head; fi
-mv /tmp/seed/$NAME.demo.aside $DEMO
-if go test -vet=off -count=1 -run SeedDemo $PKG > /tmp/seed/$NAME.demo1.log 2>&1; then echo "demo-with-change: PASS (unexpected)"; else echo "demo-with-change: FAIL (expected)"; fi
+mv $DEMO $SEEDROOT/$NAME.demo.aside
+if go test -vet=off -count=1 ./... > $SEEDROOT/$NAME.suite.log 2>&1; then echo "suite-with-change: PASS"; else echo "suite-with-change: FAIL"; grep -E "^(FAIL|---)" $SEEDROOT/$NAME.suite.log | head; fi
+mv $SEEDROOT/$NAME.demo.aside $DEMO
+if go test -vet=off -count=1 -run SeedDemo $PKG > $SEEDROOT/$NAME.demo1.log 2>&1; then echo "demo-with-change: PASS (unexpected)"; else echo "demo-with-change: FAIL (expected)"; fi
 git apply -R patch.diff
-if go test -vet=off -count=1 -run SeedDemo $PKG > /tmp/seed/$NAME.demo0.log 2>&1; then echo "demo-without-change: PASS (expected)"; else echo "demo-without-change: FAIL (unexpected)"; tail -5 /tmp/seed/$NAME.demo0.log; fi
+if go test -vet=off -count=1 -run SeedDemo $PKG > $SEEDROOT/$NAME.demo0.log 2>&1; then echo "demo-without-change: PASS (expected)"; else echo "demo-without-change: FAIL (unexpected)"; tail -5 $SEEDROOT/$NAME.demo0.log; fi
 git apply patch.diff
 # against /repo
 cd /repo && git diff --quiet || { echo "/repo is dirty, refusing"; exit 2; }
